@@ -4,7 +4,10 @@ import json, os, shutil, sys
 P, K = sys.argv[1], sys.argv[2]
 status = sys.argv[3] if len(sys.argv) > 3 else 'unknown'
 O = f'/tmp/mut/out_{P}'
-D = f'/verif/seeded/{P}-{K}'
+ROUND2 = P.endswith('r2')
+if ROUND2:
+    P = P[:-2]
+D = f'/verif/seeded/{P}-{int(K) + 2 if ROUND2 else K}'
 os.makedirs(D, exist_ok=True)
 shutil.copy(f'{O}/patch{K}.diff', f'{D}/patch.diff')
 shutil.copy(f'{O}/demo{K}.py', f'{D}/demo.py')
